@@ -350,7 +350,9 @@ func c01Run(c *core.Ctx) *core.Result {
 		os.Chmod(c.Dir, 0755)
 		os.Lchown(dest, 1234, 1234)
 	}
+	var preAbort *tree.Tree
 	if kind == "aborted" {
+		preAbort, _ = tree.Snapshot(dest, tree.SnapOpt{NoData: true})
 		var ap *wire.Pair
 		var n atomic.Int64
 		at := int64(R.Intn(70))
@@ -432,12 +434,21 @@ func c01Run(c *core.Ctx) *core.Result {
 	if kind == "aborted" {
 		// leftovers of a real aborted run: the statement demands the source's
 		// bytes, whatever size and mtime the aborted run stamped on its
-		// partial files (the edit generator never leaves equal identity with
-		// different bytes, so this is strict only for what the abort left)
+		// partial files; strict only for entries the aborted run created or
+		// rewrote (inode, mtime or size changed during it)
 		vi := view.Index()
+		touched := func(p string) bool {
+			// did the aborted run create or rewrite this entry?
+			o := old.Get(p)
+			if o == nil || preAbort == nil {
+				return false
+			}
+			b := preAbort.Get(p)
+			return b == nil || b.Ino != o.Ino || b.Mtime != o.Mtime || b.Size != o.Size
+		}
 		for i := range exp.Entries {
 			e := &exp.Entries[i]
-			if e.Type != tree.File {
+			if e.Type != tree.File || !touched(e.Path) {
 				continue
 			}
 			if j, ok := vi[e.Path]; ok {
